@@ -58,9 +58,11 @@ def main():
         m = json.load(open(mp))
         patch = os.path.join(d, "patch.diff")
         rb = os.path.join(d, "patch.rebased.diff")
-        if not applicable(patch):
-            if os.path.exists(rb) and applicable(rb):
-                patch = rb
+        if os.path.exists(rb) and applicable(rb):
+            patch = rb  # (also when the original still applies textually but no longer builds)
+        elif not applicable(patch):
+            if False:
+                pass
             else:
                 patch = rebase(d, patch)
                 if patch is None:
